@@ -1,4 +1,5 @@
 import Qats.Lemmas.W2GMain
+import Qats.Lemmas.StatsMain
 /-!
 # C17 — the extreme-value chain from peaks to quantiles is coherent
 
@@ -8,7 +9,7 @@ formulas; its consistency / equivariance / mirror clauses are validated on the i
 (partial: not restated as one composed theorem).
 -/
 namespace Qats.Props.C17
-open Qats Qats.Gen Qats.Dist
+open Qats Qats.Gen Qats.Dist Qats.Stats
 
 theorem gloc_is_quantile (loc scale shape n : ℝ) (hn : 1 < n) :
     w2g_loc loc n scale shape = wb_invcdf loc (1 - 1 / n) scale shape :=
@@ -21,6 +22,47 @@ theorem gscale_is_inverse_intensity (loc scale shape n : ℝ) (hs : 0 < scale) (
 theorem entry_points_agree (loc scale shape n : ℝ) (hs : 0 < scale) (hc : 0 < shape) (hn : 1 < n) :
     wfw_loc n loc scale shape = w2g_loc loc n scale shape ∧ wfw_scale n scale shape = w2g_scale n scale shape :=
   entry_points_agree' loc scale shape n hs hc hn
+
+
+/-! ### the statistics summary (`TimeSeries.stats`): composition of C14 maxima, C16 PWM and the identities above -/
+
+/-- Quantile estimates increase with the probability (for a positive Gumbel scale). -/
+theorem gumbel_quantile_increasing (gl gs p q : ℝ) (hgs : 0 < gs) (hp : 0 < p) (hpq : p < q) (hq : q < 1) :
+    gu_invcdf gl p gs < gu_invcdf gl q gs :=
+  gumbel_quantile_increasing' gl gs p q hgs hp hpq hq
+
+/-- The minima variant is the mirror image of the maxima variant of the negated signal: same Weibull / Gumbel parameters,
+negated quantile estimates and sample. -/
+theorem summary_mirror (rnd : ℝ → Int) (sd dur : ℝ) (qs x : List ℝ) :
+    summary rnd sd dur qs true x =
+      (summary rnd sd dur qs false (x.map fun v => -v)).map fun s =>
+        { s with pvalues := s.pvalues.map fun v => -v, sample := s.sample.map fun v => -v } :=
+  summary_mirror' rnd sd dur qs x
+
+/-- The reported Gumbel location is the Weibull (1 − 1/n)-quantile of the reported Weibull parameters, the scale is
+1/(n·density there), with `n = round(statsdur/duration · #maxima)` (whenever `n > 1` and the fitted scale and shape are
+positive). -/
+theorem summary_chain (rnd : ℝ → Int) (sd dur : ℝ) (qs x : List ℝ) (isMin : Bool) (s : Summary ℝ)
+    (h : summary rnd sd dur qs isMin x = some s) :
+    let n : ℝ := ((rnd (sd / dur * (s.sample.length : ℝ)) : Int) : ℝ)
+    1 < n → 0 < s.wscale → 0 < s.wshape →
+      s.gloc = wb_invcdf s.wloc (1 - 1 / n) s.wscale s.wshape ∧
+      s.gscale = 1 / (n * wb_pdf s.wloc s.wscale s.wshape s.gloc) ∧
+      s.pvalues = qs.map fun p => (if isMin then -1 else 1) * gu_invcdf s.gloc p s.gscale :=
+  summary_chain' rnd sd dur qs x isMin s h
+
+/-- Affine equivariance of the maxima summary: under `x ↦ a·x + b` (`a > 0`) location-type quantities map as `a·v + b`,
+scale-type quantities as `a·v`, the shape is unchanged, quantile estimates and the sample map as `a·v + b`.
+(Hypotheses: at least four maxima and the non-degeneracy of the PWM formulas, as in `weibullPwm_equivariant`.) -/
+theorem summary_affine (rnd : ℝ → Int) (sd dur a b : ℝ) (ha : 0 < a) (qs x : List ℝ) (s : Summary ℝ)
+    (h : summary rnd sd dur qs false x = some s) (h4 : 4 ≤ s.sample.length)
+    (hden : Dist.mlj s.sample 0 - 8 * Dist.mlj s.sample 1 + 12 * Dist.mlj s.sample 2 - 4 * Dist.mlj s.sample 3 ≠ 0)
+    (hden2 : 5 * Dist.mlj s.sample 1 - Dist.mlj s.sample 0 - 6 * Dist.mlj s.sample 2 + 2 * Dist.mlj s.sample 3 ≠ 0) :
+    summary rnd sd dur qs false (x.map fun v => a * v + b) =
+      some { wloc := a * s.wloc + b, wscale := a * s.wscale, wshape := s.wshape,
+             gloc := a * s.gloc + b, gscale := a * s.gscale,
+             pvalues := s.pvalues.map fun v => a * v + b, sample := s.sample.map fun v => a * v + b } :=
+  summary_affine' rnd sd dur a b ha qs x s h h4 hden hden2
 
 
 end Qats.Props.C17
